@@ -114,6 +114,15 @@ def control_spec(kind, d, n, start=0.0):
     elif kind == "pre-last":
         ctrl.add_single(n, kick, post=False)
         pre[n] = kick
+    elif kind == "post-late":
+        ctrl.add_single(max(n - 1, 0), kick, post=True)
+        post[max(n - 1, 0)] = kick
+    elif kind == "pre+post":
+        kick2 = R.conj_super(M.generic_unitary(d, 4))
+        ctrl.add_single(step, kick, post=False)
+        ctrl.add_single(step if step < n else 0, kick2, post=True)
+        pre[step] = kick
+        post[step if step < n else 0] = kick2
     return ctrl, pre, post
 
 
@@ -126,6 +135,15 @@ def run_case(case):
     ns = case.get("num_steps") or n
     ctrl, pre, post = control_spec(case["control"], d, ns, start)
     rho0 = M.generic_state(d, 2)
+    lay = case.get("rho_layout")
+    if lay == "F":
+        rho0 = np.asfortranarray(rho0)                     # same values, column-major memory
+    elif lay == "T-view":
+        rho0 = np.ascontiguousarray(rho0.T).T              # a transposed view (F-contiguous, not owning its data)
+    elif lay == "strided":
+        big = np.zeros((2 * d, 2 * d), dtype=complex)
+        big[::2, ::2] = rho0
+        rho0 = big[::2, ::2]
     kw = {}
     if case.get("subdiv", "default") is None:
         kw["subdiv_limit"] = None
@@ -135,7 +153,7 @@ def run_case(case):
     try:
         dyn = oq.compute_dynamics(sysm, rho0, process_tensor=[x["pt"] for x in envs], control=ctrl,
                                   start_time=start, num_steps=ns if bare else case.get("num_steps"),
-                                  progress_type="silent", **kw)
+                                  progress_type="silent", record_all=not case.get("final_only"), **kw)
     except Exception as ex:  # noqa
         return {"dev": None, "exc": f"{type(ex).__name__}: {ex}"[:200]}
     finally:
@@ -148,6 +166,14 @@ def run_case(case):
     real = [x for x in envs if x["kraus"] is not None]
     ref = R.simulate(rho0, [x["sigma"] for x in real], lambda j, k: real[j]["kraus"][k], props, ns, pre, post)
     got = np.array(dyn.states)
+    if case.get("final_only"):
+        # record_all=False: exactly one state, the final one, labelled with the final time
+        if got.shape[0] != 1:
+            return {"dev": None, "exc": f"{got.shape[0]} states recorded with record_all=False"}
+        dev1 = float(np.abs(got[0] - np.array(ref)[ns]).max())
+        tdev = float(abs(dyn.times[0] - (start + DT * ns)))
+        infl = float(np.abs(np.array(ref)[ns] - rho0).max())
+        return {"dev": dev1, "first_bad": ns if dev1 > TOL else None, "tdev": tdev, "infl": infl, "states": got}
     if got.shape[0] != ns + 1:
         return {"dev": None, "exc": f"{got.shape[0]} states instead of {ns + 1}"}
     dev = np.abs(got - np.array(ref)).max(axis=(1, 2))
@@ -169,6 +195,19 @@ def cases_single(tier):
                                                           ["explicit", "computed"], ["H", "H(t)"]):
         out.append({"fam": "file", "d": d, "n": 3, "envs": [(kind, e, 1, tr, caps)], "system": sysk, "control": "pre",
                     "file": True})
+    # only the final state recorded (record_all=False): pre- and post-measurement controls must still all act
+    for (d, e), n, kind, sysk, ck in itertools.product([(2, 3), (3, 2)], [1, 2, 4], ["unitary", "rank3", "cptp"], ["H", "H(t)"],
+                                                       ["none", "pre", "post", "pre-last", "post-late", "pre+post"]):
+        out.append({"fam": "final-only", "d": d, "n": n, "envs": [(kind, e, 1, True, "explicit")], "system": sysk,
+                    "control": ck, "final_only": True})
+        if ck in ("post-late", "pre+post"):
+            out.append({"fam": "single", "d": d, "n": n, "envs": [(kind, e, 1, True, "explicit")], "system": sysk,
+                        "control": ck})
+    # the initial state handed over in other memory layouts (same values)
+    for (d, e), kind, sysk, lay in itertools.product([(2, 3), (3, 2)], ["unitary", "rank3", "cptp"], ["zero", "H(t)"],
+                                                     ["F", "T-view", "strided"]):
+        out.append({"fam": "state-layout", "d": d, "n": 2, "envs": [(kind, e, 1, True, "explicit")], "system": sysk,
+                    "control": "pre", "rho_layout": lay})
     # first n' steps of a longer PT, non-zero start time with H(t), both subdivision settings
     for (d, e), kind, nsub, start, sub in itertools.product([(2, 3), (3, 2)], ["unitary", "rank3", "cptp"],
                                                             [1, 2, 3], [0.0, 1.7, -0.3], ["default", None]):
